@@ -62,6 +62,15 @@ def gen_deflate(tier, rng):
                     inp = igz.corpus(rng, "random", n1 + 45000)
                     add(api="deflate", inp=inp, level=level, wrap=wrap, lbuf=3, mem=[0, 1][(ao + d) % 2], prefill=0,
                         calls=[[n1, ao, [1, 2][(ao + d) % 2], 0], [45000, 1 << 17, 0, 0], [0, 1 << 17, 0, 1]], tail_ai=len(inp), tail_ao=1 << 17, cap=60, meta={"family": "stored-tail-in-internal-buffer"})
+    # EVERY input length over more than one fill of the smallest level buffer's token buffer, incompressible data (one token per byte or two), end of
+    # stream in the same call: the finish kernels emit the last bytes as literals and the end-of-block token behind them; the level buffer ends
+    # directly before an inaccessible page
+    rnd = igz.corpus(rng, "random", 7100)
+    for n in (range(1500, 3500) if tier == "quick" else range(1, 7000)):
+        for level in ((1, 2, 3) if n % 2 == 0 or tier == "thorough" else (1, 2)):
+            add(api="deflate", inp=rnd[:n], level=level, wrap=0, lbuf=0, mem=1, calls=[[n, n + 200, [0, 1, 2][n % 3], 1]], tail_ao=1 << 16, cap=40, meta={"family": "every-length-minimal-level-buffer"})
+            if n % 3 == 0:
+                add(api="deflate_stateless", inp=rnd[:n], level=level, wrap=0, lbuf=0, mem=1, calls=[[n, n + 200, 0, 1]], meta={"family": "every-length-minimal-level-buffer"})
     return scns
 
 def queued_lookahead_family(tier, rng, wd, first):
